@@ -178,11 +178,9 @@ def lattice_rules(model, R):
     R.check(ok, 'MAPPING', f, last, 'lattice[items]: the member whose extent is the closure of the query',
             'extent, intent = self._context.__getitem__(key, raw=True); return self._mapping[extent]', src(last))
     f = model.func('lattices.CollectionMixin.__iter__')
-    r = [src(n.value) for n in walk(f.body) if isinstance(n, ast.Return)]
-    R.check(r == ['iter(self._concepts)'], 'MAPPING', f, f.node, 'iteration is over the member list', 'iter(self._concepts)', str(r))
+    R.returns(f, 'iter(self._concepts)', 'MAPPING', 'iteration is over the member list')
     f = model.func('lattices.CollectionMixin.__len__')
-    r = [src(n.value) for n in walk(f.body) if isinstance(n, ast.Return)]
-    R.check(r == ['len(self._concepts)'], 'MAPPING', f, f.node, 'len is that of the member list', 'len(self._concepts)', str(r))
+    R.returns(f, 'len(self._concepts)', 'MAPPING', 'len is that of the member list')
 
 
 def run(model, R):
